@@ -1844,6 +1844,16 @@ stream_decoder_mt_memconfig(void *coder_ptr, uint64_t *memusage,
 				+ coder->outq.mem_allocated;
 	}
 
+	// If decoding has stopped to LZMA_MEMLIMIT_ERROR because the filter
+	// chain of the next Block needs more memory than memlimit_stop
+	// allows, report how much that Block needs. This way the
+	// application can find out how big the limit should be to continue,
+	// like it can with the single-threaded decoder.
+	if (coder->sequence == SEQ_BLOCK_INIT
+			&& coder->mem_next_filters > coder->memlimit_stop
+			&& *memusage < coder->mem_next_filters)
+		*memusage = coder->mem_next_filters;
+
 	// If no filter chains are allocated, *memusage may be zero.
 	// Always return at least LZMA_MEMUSAGE_BASE.
 	if (*memusage < LZMA_MEMUSAGE_BASE)
